@@ -567,6 +567,20 @@ def wakeup_min(ctx, func, rule="R-WAKEUP-MIN", tag=""):
             ctx.violated(rule, f, "%s%s update #%d: next wake-up is a running minimum [%s]" % (tag, f.name, k, ast.unparse(v)[:40]),
                          "the wake-up time is overwritten without the test `later than this deadline`: with several pending deadlines the "
                          "thread sleeps until the one scanned last, and an earlier one is served late", a)
+    # a test `wake-up later than this deadline?` is there to be acted on: one of its branches assigns the wake-up variable
+    k_t = 0
+    for n in ast.walk(f.node):
+        if isinstance(n, ast.If) and isinstance(n.test, ast.Compare) and any(isinstance(x, ast.Name) and x.id == var for x in ast.walk(n.test)):
+            k_t += 1
+            acts = any(isinstance(x, ast.Assign) and any(isinstance(t, ast.Name) and t.id == var for t in x.targets)
+                       for b in n.body + n.orelse for x in ast.walk(b))
+            inst = "%s%s test #%d `%s`: the earlier deadline is taken over" % (tag, f.name, k_t, ast.unparse(n.test)[:40])
+            if acts:
+                ctx.holds(rule, inst)
+            else:
+                ctx.violated(rule, f, "%s%s test #%d: an earlier deadline found by `%s` becomes the next wake-up" % (tag, f.name, k_t, ast.unparse(n.test)[:40]),
+                             "the pass compares its next wake-up with this deadline but never takes the deadline over: it sleeps past it (up to 5 s when "
+                             "idle) - the time-out, the paced packet or the timer due then is served late", n)
     for n in ast.walk(f.node):
         if isinstance(n, ast.Return) and isinstance(n.value, ast.Call) and any(isinstance(a_, ast.Name) and a_.id == var for a_ in n.value.args):
             inst = "%s%s result: wake-up handed on through %s" % (tag, f.name, ast.unparse(n.value.func)[:40])
